@@ -348,7 +348,7 @@ func (st *State) invoke(fr *Frame, in ssa.Instruction, call *ssa.CallCommon, rec
 	// devirtualise when the dynamic type is known
 	var id int
 	if _, err := fmt.Sscanf(tag, "%d", &id); err == nil && !strings.HasPrefix(tag, "(") && id != 0 {
-		if t, ok := e.tagTypes[id]; ok {
+		if t, ok := e.tagTypes[id]; ok && t != nil {
 			sel := e.P.Prog.MethodSets.MethodSet(t).Lookup(call.Method.Pkg(), call.Method.Name())
 			if sel != nil {
 				fn := e.P.Prog.MethodValue(sel)
